@@ -24,7 +24,7 @@ CONSTANTS
                  \*       (the schedules the harness forces); FALSE: any interleaving (Go select picks any ready case)
     Record,      \* TRUE: keep the stimulus history `hist` (behaviour export for replay)
     MaxFail,     \* injected failures per behaviour
-    MaxIgnored,  \* ignorable events (lease of another group, another order closed) per behaviour
+    MaxIgnored,  \* ignorable events (lease of another group, another order closed, duplicate order-created) per behaviour
     MaxQ,        \* bound on events delivered to the subscription and not yet consumed
     MaxPrice,    \* the order's maximum price
     Prices,      \* answers the pricing strategy may give
@@ -51,8 +51,11 @@ Results(o) == CASE o = "qbid"   -> {"found", "notfound", "err"}
                 [] o = "should" -> {"yes", "no", "err"}
                 [] OTHER        -> {"ok", "err"}
 
-EvKinds == {"closed", "lost", "won", "other", "xclosed"}
-Ignorable == {"other", "xclosed"}
+\* closed: this order closed; lost / won: lease created for another provider / for us; other: lease of another
+\* group; xclosed: another order closed; created: the order-created event of this very order seen again (the
+\* service must not start a second monitor for it, the monitor itself ignores it)
+EvKinds == {"closed", "lost", "won", "other", "xclosed", "created"}
+Ignorable == {"other", "xclosed", "created"}
 
 VARIABLES
     pc,          \* "loop" | "exit" | "x_unres" | "exit_u" | "x_close" | "exit_c" | "done"
